@@ -287,6 +287,12 @@ def synthetic_zones(rng, tier):
     mk("syn_type0_dst_first", b"<-03>3", times=[-1000000000, -990000000, -970000000, -960000000], idx=[0, 1, 0, 1],
        types=[(-7200, 1, 4), (-10800, 0, 0)], ab=b"-03\0-02\0")
     mk("syn_late", b"STD5DST,M3.2.0,M11.1.0", times=[t0, 4102444800 * 3], idx=[1, 2])
+    # one abbreviation stored twice (finding F14, fixed): types 1 and 3 differ only in abbr_index, so the
+    # transitions between them change nothing and must not be reported; also a footer matching such a type
+    mk("syn_dupabbr", b"STD5", times=[t0, 100000000, 110000000, 120000000], idx=[1, 3, 1, 3],
+       types=[(-17762, 0, 0), (-18000, 0, 4), (-14400, 1, 8), (-18000, 0, 12)], ab=b"LMT\0STD\0DST\0STD\0")
+    mk("syn_dupabbr_empty", None, version=b"\0", times=[100000000, 110000000], idx=[1, 1],
+       types=[(0, 1, 3), (0, 1, 1)], ab=b"B\0\0\0")
     # footer offsets beyond 24 h: Load() bounds the type table's offsets by +-24h but not the
     # types the footer adds (std up to 24:59:59, default dst one hour more) - found by LoadCert.v
     # a rule whose spring-forward instant of the LAST representable year lies seconds before time_point::max()
@@ -491,6 +497,22 @@ def header_lengths(data):
 
 
 def mutate(base, rng):
+    """one structured edit of a TZif byte string; an edit that does not apply to this (possibly already
+       mutated) input falls back to bit flips"""
+    st = rng.getstate()
+    try:
+        return _mutate(base, rng)
+    except (IndexError, ValueError, struct.error, OverflowError):
+        rng.setstate(st)
+        rng.random()
+        b = bytearray(base) if base else bytearray(b"\0")
+        for _ in range(rng.randint(1, 4)):
+            i = rng.randrange(len(b))
+            b[i] ^= 1 << rng.randrange(8)
+        return bytes(b)
+
+
+def _mutate(base, rng):
     b = bytearray(base)
     kind = rng.randrange(12)
     try:
@@ -524,10 +546,10 @@ def mutate(base, rng):
         which = rng.randrange(6)
         val = rng.choice([0, 1, 255, 256, (1 << 31) - 1, -(1 << 31), -1, 12345])
         b[20 + 4 * which: 24 + 4 * which] = struct.pack(">l", val)
-    elif kind == 4 and timecnt:   # type index at/over the bound
+    elif kind == 4 and timecnt > 0 and d0 + (tl + 1) * timecnt <= len(b):   # type index at/over the bound
         i = d0 + tl * timecnt + rng.randrange(timecnt)
         b[i] = rng.choice([typecnt, typecnt - 1, 255, 0, typecnt + 1]) & 255
-    elif kind == 5 and typecnt:   # abbreviation index / isdst / utoff edits
+    elif kind == 5 and typecnt > 0 and timecnt >= 0 and d0 + (tl + 1) * timecnt + 6 * typecnt <= len(b):   # abbreviation index / isdst / utoff edits
         j = d0 + (tl + 1) * timecnt + 6 * rng.randrange(typecnt)
         w = rng.randrange(3)
         if w == 0:
@@ -536,7 +558,7 @@ def mutate(base, rng):
             b[j + 4] = rng.choice([0, 1, 2, 255])
         else:
             b[j:j + 4] = struct.pack(">l", rng.choice([86399, 86400, -86399, -86400, 0, 1 << 30, -(1 << 31), 90000, -90000]))
-    elif kind == 6 and timecnt:   # 8-byte time edits
+    elif kind == 6 and timecnt > 0 and d0 + tl * timecnt <= len(b):   # 8-byte time edits
         k = rng.randrange(timecnt)
         val = rng.choice([I64_MIN, I64_MAX, I64_MIN + 1, I64_MAX - 100000, BIG_BANG, BIG_BANG - 1, BIG_BANG + 1, -BIG_BANG, 0, -1,
                           (1 << 62), -(1 << 62), (1 << 31) - 1])
